@@ -9,6 +9,24 @@ CHECKS = {
     'C01': dict(cat='exploration', tech='bounded-exhaustive enumeration of (shape, process grid, layout set, pair, dtype, buffer) executed on the real LayoutHandler in a simulated MPI world, compared with a global-array reference model',
                 text='Every ordered layout pair of every enumerated (array rank 2-4, shape, grid, layout set) is executed on all simulated ranks of the real code and compared exactly with a global array; exhaustive within the stated alphabets, which contain every extent class (p, p+1, 2p-1, 2p, 2p+1), grids with leading/trailing extent 1 and routes of 1-4 steps of both buffer parities.',
                 note='trusted: simmpi (Alltoall, Create_cart, Sub semantics), numpy; value-independence of data movement (one injective pattern per dtype).', ref='DESIGN.md section 3 C01'),
+    'C02': dict(cat='exploration', tech='exhaustive enumeration of (extent, process count, rank, ordering) for directly constructed Layout objects plus all Grid accessors on every rank of simulated MPI worlds, against an independent partition/coordinate reference',
+                text='Every Layout for n up to the bound, every p<=n, every rank coordinate (1-D and 2-D grids, all orderings for d<=3) is checked for exact balanced tiling and consistency of all advertised quantities; every Grid accessor with every argument is checked on every rank of handler- and swapper-backed grids, blocks of all ranks must cover the global index space exactly once.',
+                note='any balanced contiguous arrangement is accepted; sufficiency of bufferSize for transposes is discharged by C01/C03/C04 (arrays of exactly bufferSize).', ref='DESIGN.md section 3 C02'),
+    'C03': dict(cat='model_checking', tech='explicit-state exploration of the real LayoutSwapper in a simulated MPI world: all length-3 layout sequences per configuration, dead buffers poisoned, global-array reference model',
+                text='State = (configuration, current layout / manager); every transition (transpose to any layout, buffer or not) from every state is executed on the real object on all ranks, reached through every predecessor (all triples a->b->c), and compared exactly with a global array, for every accepted grouping / shape / 2-D grid of the alphabet, float and complex (gather through MPI.DOUBLE).',
+                note='trusted: simmpi Allgather/Alltoall byte-count semantics; dead data represented by poison values; groupings the constructor refuses are counted as rejected.', ref='DESIGN.md section 3 C03'),
+    'C04': dict(cat='model_checking', tech='breadth-first explicit-state search to closure over the real Grid object (alphabet setLayout/write/save/restore/free) on all ranks of a simulated MPI world, one-array reference model, NaN-poisoned dead regions',
+                text='For each configuration the reachable state space of the Grid (layout, save flag, saved content, buffer-index permutation, live content, swapper manager) is searched to closure with the real methods as transition function; every transition is checked against a one-array model including refusal of illegal save/restore/free; closure covers operation sequences of any length.',
+                note='trusted: simmpi; the canonical-state abstraction (dead buffer regions are arbitrary, represented by NaN) - argument in DESIGN.md; uses Grid internals only for poisoning and the state key.', ref='DESIGN.md section 3 C04'),
+    'C07': dict(cat='exploration', tech='bounded-exhaustive enumeration of a structural lattice of spline spaces x evaluation-point classes x unit coefficient vectors on every entry point, against exact-rational Cox-de Boor',
+                text='All spaces of the lattice (degree, cells, boundary, breakpoint widths, fast path, scale), all x classes (breakpoints, +-1 ulp, interior, end points), all unit coefficient vectors (linearity then decides every coefficient vector) on every 1-D/2-D entry point and derivative flag are compared with an exact rational evaluation; partition of unity, non-negativity, periodic end-point identities and fast-path/general-path agreement included.',
+                note='trusted: pgv.refspline (exact Fractions, independent of pygyro/scipy); linearity in the coefficients (checked by superposition in thorough); x inside a cell covered through >= d+3 points per cell (polynomial identity).', ref='DESIGN.md section 3 C07'),
+    'C08': dict(cat='exploration', tech='bounded-exhaustive enumeration of the spline-space lattice x unit nodal data (1-D and 2-D, real and complex) against the exact rational collocation solve',
+                text='Every unit data vector (and monomials, badly scaled and complex vectors) on every space of the lattice is interpolated by the real code; coefficients are compared with the exact rational solution, data reproduction and polynomial reproduction are checked through the real eval, wrapped coefficients must be consistent; 2-D: all e_i x e_j on pairs covering every boundary combination and unequal degrees.',
+                note='trusted: pgv.refspline; tolerance scaled by the exactly computed norm of the inverse collocation matrix.', ref='DESIGN.md section 3 C08'),
+    'C09': dict(cat='exploration', tech='bounded-exhaustive enumeration of the spline-space lattice: stored basis integrals and quadrature weights (repeated calls included) against exact rational integrals and weights',
+                text='For every space of the lattice the stored basis integrals (folded on periodic spaces) and the quadrature coefficients, requested repeatedly on the same objects, are compared with exact rational values; weight sum, equality on uniform periodic spaces and exactness for every unit data vector follow.',
+                note='trusted: pgv.refspline exact integration (open Newton-Cotes in Fractions).', ref='DESIGN.md section 3 C09'),
     'C20': dict(cat='exploration', tech='exhaustive enumeration of the (max1,max2,size) box and npts cube against brute-force divisor search; returned grids used to build layouts on the simulated MPI world',
                 text='All (max1,max2,size) in the box, all npts in the cube x size and a fixed lattice of large values are compared with brute-force divisor enumeration (valid pair, error iff none exists, termination by watchdog); the three standard layouts are built, checked non-empty and round-tripped on every returned grid of the layout family.',
                 note='trusted: simmpi; termination decided by per-slab wall-clock limit.', ref='DESIGN.md section 3 C20'),
